@@ -161,7 +161,7 @@ def main(argv):
     ck.cov["rule"] = ("generated cells: translational (one pair; two independent pairs sharing the four corners), rotational sectors of 45-120 degrees with the "
                       "apex in the model (self pair) or a shaft hole, congruent arc sides; x magnetics / electrostatics / heat x periodic / antiperiodic x "
                       "segment spacings and smart-mesh settings; plus invalid assignments; a case is non-trivial when the solution is not identically zero")
-    ck.assumptions += ["planar problems; the harmonic (complex) solver's Periodicity is exercised only through C05/C09's checks"]
+    ck.assumptions += ["planar problems (static for all three physics, time-harmonic for every second magnetics cell)"]
     ck.run_stage_a()
     build = vlib.build_repo("plain")
     mx = vlib.model_exe()
@@ -187,6 +187,13 @@ def main(argv):
                 p, sides, size = gen_sector(kind, rng, anti, True)
             else:
                 p, sides, size = gen_arcsides(kind, rng, anti)
+            harmonic = kind == "m" and (t // 3) % 2 == 1
+            if harmonic:
+                # the complex solver's (anti)periodic ties on a whole problem: eddy currents in the iron, phase-shifted source
+                p.freq = rng.choice([50.0, 400.0])
+                p.blockprops[2]["Sigma"] = rng.choice([1.0, 5.0])
+                p.blockprops[1]["J_im"] = rng.choice([0.0, 0.5])
+                stats["harmonic_problems"] = stats.get("harmonic_problems", 0) + 1
             run = Run(build, work, "p%d" % t, p)
             stats["problems"] += 1
             stats["by_family"][fam] = stats["by_family"].get(fam, 0) + 1
@@ -310,7 +317,7 @@ def main(argv):
             if max(dist) > 1e-7 * size:
                 ck.obligation_broken("oracle: mesh nodes cannot be matched with the nodes of the solution file by position (%.3g)" % max(dist), dict(files=run.files()))
                 continue
-            V = [sol["nodes"][w][2] for w in where]
+            V = [complex(sol["nodes"][w][2], sol["nodes"][w][3]) if harmonic else sol["nodes"][w][2] for w in where]
             scale = max(abs(v) for v in V) or 0.0
             ck.case((tag, t, len(pbc)), nontrivial=scale > 0,
                     sample=dict(family=fam, physics=kind, antiperiodic=anti, pairs=len(pbc), nodes=len(V)) if t < 3 else None)
@@ -329,7 +336,7 @@ def main(argv):
             if not (rel <= 1e-6) and nviol < 5:
                 nviol += 1
                 i, j = wp
-                ck.violation("solution:%s" % tag, "%s cell, %s, %s: listed pair (%d, %d) has potentials %.12g and %.12g (largest potential %.6g)%s"
+                ck.violation("solution:%s" % tag, "%s cell, %s, %s: listed pair (%d, %d) has potentials %s and %s (largest potential %.6g)%s"
                              % (fam, kind, "antiperiodic" if anti else "periodic", i, j, V[i], V[j], scale, " — a self pair" if i == j else ""),
                              dict(files=run.files(), pair=wp))
         # ================= invalid assignments are rejected
